@@ -584,6 +584,25 @@ pub fn gen_rec_case(rng: &mut Rng, small_alphabet: bool) -> Option<RecCase> {
     None
 }
 
+/// A long erroneous input: a sampled sentence of 270-400 tokens with one token-level edit among
+/// its first ten tokens, so that more than TRY_PARSE_AT_MOST error-free lexemes follow the error
+/// (the ranking window of the recovery then ends inside the input, not at its end).
+pub fn gen_long_bad_input(rng: &mut Rng, ag: &AG) -> Option<Vec<usize>> {
+    let nt = ag.tokens.len();
+    for _ in 0..24 {
+        let d = rng.range(20, 80);
+        if let Some(s) = sample_sentence(ag, rng, ag.start, d) {
+            if s.len() >= 270 {
+                let k = s.len().min(10);
+                let mut m = mutate(rng, &s[..k], nt, 1);
+                m.extend_from_slice(&s[k..]);
+                return Some(m);
+            }
+        }
+    }
+    None
+}
+
 /// An erroneous (usually) input: a sampled sentence with `nerr` independent token-level edits.
 pub fn gen_bad_input(rng: &mut Rng, ag: &AG, maxlen: usize, nerr: usize) -> Vec<usize> {
     let nt = ag.tokens.len();
